@@ -63,7 +63,7 @@ def check(col, prog, tier, profile, fixture=None):
 
     # ---- H1
     b = R.merge
-    I = util.analyse(b)
+    I = R.A(b)
     L, Rt = ("param", 1, I.names.get(1)), ("param", 2, I.names.get(2))
     dirs = set()
     for st in I.final_states:
